@@ -130,11 +130,34 @@ def solved_problem_roundtrip(ctx):
     cfg = {"family": "solved problem round trip", "maximize": maximize, "dim": dim, "points": pts, "equality": with_eq, "observable": with_obs, "eval_jac": eval_jac, "node": node, "linear": bool(linear)}
     ctx.event("cfg", canon(cfg))
     sig = "problem.to_hdf/from_hdf content"
+    # the file may already hold ANOTHER problem (at the root when ours goes to a node, at another node otherwise);
+    # ours is then appended to the file and both must reload (wave 11, C11l)
+    prior = t.flag(0.35, "file_holds_another_problem")
+    cfg["prior_problem"] = bool(prior)
+    other_node = "" if node else "elsewhere"
+    if prior:
+        ods = DesignSpace()
+        ods.add_variable("z", size=2, lower_bound=0.0, upper_bound=1.0, value=array([0.25, 0.75]))
+        o = OptimizationProblem(ods)
+        o.objective = MDOFunction(lambda z: float(z.sum()), "fz", jac=lambda z: np.ones(2), expr="z0+z1", input_names=["z"])
+        o.add_constraint(MDOFunction(lambda z: array([z[0] - 0.5]), "gz", jac=lambda z: array([[1.0, 0.0]])), constraint_type="ineq")
+        DOELibraryFactory().execute(o, algo_name="CustomDOE", samples=array([[0.25, 0.75], [0.5, 0.5]]))
+        o.to_hdf(path, hdf_node_path=other_node)
+        ctx.probe("problem_appended_to_a_file_holding_another_problem")
     try:
-        p.to_hdf(path, hdf_node_path=node)
+        p.to_hdf(path, append=bool(prior), hdf_node_path=node)
         q = OptimizationProblem.from_hdf(path, hdf_node_path=node)
     except Exception as exc:  # noqa: BLE001
         ctx.violate("C11.problem_roundtrip", sig + f" raised={type(exc).__name__}", f"round trip raised {exc!r}; cfg={cfg}")
+    if prior:
+        try:
+            o2 = OptimizationProblem.from_hdf(path, hdf_node_path=other_node)
+            if dump(o2.database) != dump(o.database) or o2.objective.name != "fz" or [c.name for c in o2.constraints] != ["gz"]:
+                ctx.violate("C11.problem_roundtrip", sig + " earlier problem of the file changed",
+                            f"the problem already stored at {other_node!r} reloads differently after another problem was appended; cfg={cfg}")
+        except Exception as exc:  # noqa: BLE001
+            ctx.violate("C11.problem_roundtrip", sig + f" earlier problem raised={type(exc).__name__}",
+                        f"the problem already stored at {other_node!r} can no longer be read: {exc!r}; cfg={cfg}")
 
     def same(a, b):
         # a mapping holding only None carries no information (e.g. constraints_grad without Jacobians)
